@@ -22,37 +22,7 @@ type Case struct {
 }
 
 func genProject(t *rapid.T) *model.Project {
-	p := &model.Project{}
-	if rapid.IntRange(0, 2).Draw(t, "enumrules") == 0 {
-		items := []model.Val{}
-		for _, l := range rapid.SliceOfNDistinct(rapid.SampledFrom([]string{`"a"`, `"A"`, `1`, `2.5`, `true`, `null`, `"ab"`, `0`, `"1"`}), 1, 4, func(s string) string { return s }).Draw(t, "enumitems") {
-			items = append(items, model.LitVal(l))
-		}
-		p.Enums = append(p.Enums, model.EnumRule{Name: "@e0", Items: items})
-	}
-	so := gen.ScalarOpts{Enums: p.Enums}
-	nt := rapid.IntRange(0, 3).Draw(t, "ntypes")
-	for i := 0; i < nt; i++ {
-		name := fmt.Sprintf("@s%d", i)
-		so.Types = p.Types // earlier types only: no reference cycles here
-		p.Types = append(p.Types, model.Type{Name: name, Node: gen.Scalar(t, so, name)})
-	}
-	if rapid.IntRange(0, 3).Draw(t, "regextype") == 0 {
-		p.Types = append(p.Types, model.Type{Name: "@re", Regex: rapid.SampledFrom([]string{"/^a/", "/b$/", `/^[a-z]+$/`, `/\d/`}).Draw(t, "re")})
-	}
-	so.Types = p.Types
-	var refNames []string
-	for _, ty := range p.Types {
-		refNames = append(refNames, ty.Name)
-	}
-	to := gen.TreeOpts{Scalar: so, RefTypes: refNames}
-	if rapid.IntRange(0, 3).Draw(t, "containertype") == 0 {
-		// a container type that is only reachable through value shortcuts
-		p.Types = append(p.Types, model.Type{Name: "@obj", Node: gen.Tree(t, to, 2, "@obj")})
-		to.RefTypes = append(to.RefTypes, "@obj")
-	}
-	p.Root = gen.Tree(t, to, rapid.IntRange(0, 3).Draw(t, "depth"), "root")
-	return p
+	return gen.Project(t, gen.ProjectOpts{RegexType: true, Container: true})
 }
 
 func oracle(c Case) *ev.Verdict {
